@@ -1352,6 +1352,31 @@ def rule_a2(prog, rep, om, units, sm, rid='A2'):
 NONZERO_FIELDS = {('qvector_s', 'objsize'): 'the constructor rejects 0 and the field is immutable afterwards (rule V1)'}
 
 
+def _lv_path(e):
+    """access path, also for a dereferenced simple pointer (`*p`)"""
+    p = access_path(e)
+    if p is None:
+        s_ = strip(e)
+        if s_.get('kind') == 'UnaryOperator' and s_.get('opcode') == '*':
+            q = access_path(children(s_)[0])
+            return None if q is None else '*' + q
+    return p
+
+
+def _nonzero_fact(cond):
+    """(path, nz_on_true): the integer lvalue the condition tests against zero and on which outcome it is non-zero"""
+    c = strip_parens(cond)
+    if c.get('kind') == 'BinaryOperator' and c.get('opcode') in ('==', '!=', '>'):
+        a, b = children(c)
+        if int_value_(b) == 0 and _lv_path(a):
+            return _lv_path(a), c.get('opcode') in ('!=', '>')
+        if int_value_(a) == 0 and _lv_path(b) and c.get('opcode') in ('==', '!='):
+            return _lv_path(b), c.get('opcode') == '!='
+    elif _lv_path(c) and not qtype(strip(c)).rstrip().endswith('*'):
+        return _lv_path(c), True
+    return None, None
+
+
 class NonZero:
     """Must-analysis: integer locals/params known to be non-zero at each node."""
 
@@ -1418,6 +1443,15 @@ class NonZero:
         if k == 'MemberExpr':
             fo = s.get('_field')
             return bool(fo) and (fo[0], fo[1]) in NONZERO_FIELDS
+        if k == 'ConditionalOperator':
+            c, a, b = children(s)
+            v, nz_on_true = _nonzero_fact(c)
+            sa, sb = set(st), set(st)
+            if v is not None:
+                (sa if nz_on_true else sb).add(v)
+            return self.expr_nonzero(a, sa) and self.expr_nonzero(b, sb)
+        if k == 'UnaryOperator' and s.get('opcode') == '*' and _lv_path(s) in st:
+            return True                 # *p tested non-zero by the enclosing ?: (no store can intervene inside one expression)
         if k == 'BinaryOperator' and s.get('opcode') == '*':
             return all(self.expr_nonzero(c, st) for c in children(s))
         if k == 'BinaryOperator' and s.get('opcode') == '+':
